@@ -1,5 +1,335 @@
-use crate::mc::Eng;
+//! C14 — State kinematics and State/Command/Quantity conversions are exact and consistent.
+use crate::env::*;
+use crate::mc::*;
+use crate::refmodels::*;
 use crate::Ctx;
+use rrtk::*;
+
+const COMP: [f32; 6] = [0.0, -0.0, 1.0, -2.0, 0.5, 1024.0];
+const BROAD: [f32; 4] = [0.1, -7.3, 1e3, -3.3e-3];
+const DTS: [i64; 8] = [-100_000 * S, -2 * S, -S / 2, 0, 1, S / 2, 2 * S, 100_000 * S];
+
+fn states(vals: &[f32]) -> Vec<State> {
+    let mut v = Vec::new();
+    for &p in vals {
+        for &vel in vals {
+            for &a in vals {
+                v.push(State::new_raw(p, vel, a));
+            }
+        }
+    }
+    v
+}
+fn bits(s: &State) -> [u32; 3] {
+    [s.position.to_bits(), s.velocity.to_bits(), s.acceleration.to_bits()]
+}
+fn feq(a: f32, b: f32) -> bool {
+    a.to_bits() == b.to_bits() || (a.is_nan() && b.is_nan())
+}
+
+fn kinematics(e: &mut Eng, sts: &[State], label: &str) {
+    for s in sts {
+        for &dt in &DTS {
+            e.executions += 1;
+            e.states += 1;
+            e.transitions += 1;
+            e.checks += 1;
+            if dt != 0 && s.acceleration != 0.0 {
+                e.nontrivial += 1;
+            }
+            let mut got = *s;
+            let r = guard(|| {
+                got.update(Time(dt));
+                got
+            });
+            let got = match r {
+                Ok(g) => g,
+                Err(m) => {
+                    e.violation("state:update:panic", 1, || format!("{:?}.update({} ns) panicked: {}", s, dt, m));
+                    continue;
+                }
+            };
+            e.outcome(h64(&(bits(s), dt, bits(&got))));
+            let d = secs(dt);
+            let (p, v, a) = (Tr::exact(s.position), Tr::exact(s.velocity), Tr::exact(s.acceleration));
+            let v2 = v.add(a.mul(d));
+            let p2 = p.add(v.mul(d)).add(a.mul(d).mul(d).div(Tr::exact(2.0)));
+            let ok_a = got.acceleration.to_bits() == s.acceleration.to_bits();
+            let ok = if dt == 0 { got.position == s.position && got.velocity == s.velocity } else { v2.agrees(got.velocity, 8.0) && p2.agrees(got.position, 8.0) };
+            if !ok || !ok_a {
+                e.violation(&format!("state:update:{}", if dt == 0 { "zero-dt-not-identity" } else if !ok_a { "acceleration-changed" } else { label }), 1, || {
+                    format!("{:?}.update({} ns) gave {:?} but v' = v + a dt = {} and p' = p + v dt + a dt^2/2 = {}", s, dt, got, v2.show(), p2.show())
+                });
+            }
+        }
+    }
+}
+
+fn setters(e: &mut Eng, sts: &[State]) {
+    let checked = cfg!(feature = "dimcheck");
+    for s in sts.iter().step_by(5) {
+        for m in -3..=3i8 {
+            for sx in -3..=3i8 {
+                let u = Unit::new(m, sx);
+                let qv = Quantity::new(7.5, u);
+                for which in 0..3 {
+                    e.executions += 1;
+                    e.states += 1;
+                    e.transitions += 1;
+                    e.checks += 1;
+                    let right = !checked || (m as i32, sx as i32) == [(1, 0), (1, -1), (1, -2)][which];
+                    if !right {
+                        e.nontrivial += 1;
+                    }
+                    let mut st = *s;
+                    let r = match which {
+                        0 => st.set_constant_position(qv),
+                        1 => st.set_constant_velocity(qv),
+                        _ => st.set_constant_acceleration(qv),
+                    };
+                    let want = if right {
+                        match which {
+                            0 => State::new_raw(7.5, 0.0, 0.0),
+                            1 => State::new_raw(s.position, 7.5, 0.0),
+                            _ => State::new_raw(s.position, s.velocity, 7.5),
+                        }
+                    } else {
+                        *s
+                    };
+                    let name = ["set_constant_position", "set_constant_velocity", "set_constant_acceleration"][which];
+                    if r.is_ok() != right || bits(&st) != bits(&want) {
+                        e.violation(&format!("state:{}:{}", name, if right { "accepted-case" } else { "rejected-case" }), 1, || {
+                            format!("{:?}.{}(7.5 with unit exponents ({},{})) returned {:?} and left {:?}; expected {} and {:?}", s, name, m, sx, r, st, if right { "Ok" } else { "Err" }, want)
+                        });
+                    }
+                    e.outcome(h64(&(which, m, sx, bits(&st))));
+                }
+            }
+        }
+        // raw setters
+        let mut a = *s;
+        a.set_constant_position_raw(3.0);
+        let mut b = *s;
+        b.set_constant_velocity_raw(3.0);
+        let mut c = *s;
+        c.set_constant_acceleration_raw(3.0);
+        e.checks += 1;
+        if bits(&a) != bits(&State::new_raw(3.0, 0.0, 0.0)) || bits(&b) != bits(&State::new_raw(s.position, 3.0, 0.0)) || bits(&c) != bits(&State::new_raw(s.position, s.velocity, 3.0)) {
+            e.violation("state:raw-setters", 1, || format!("{:?}: raw setters gave {:?} {:?} {:?}", s, a, b, c));
+        }
+    }
+}
+
+fn conversions(e: &mut Eng, sts: &[State]) {
+    let checked = cfg!(feature = "dimcheck");
+    for s in sts {
+        e.executions += 1;
+        e.states += 1;
+        e.transitions += 1;
+        e.checks += 1;
+        let c = Command::from(*s);
+        let want = if s.acceleration != 0.0 {
+            Command::Acceleration(s.acceleration)
+        } else if s.velocity != 0.0 {
+            Command::Velocity(s.velocity)
+        } else {
+            Command::Position(s.position)
+        };
+        if s.acceleration == 0.0 && s.velocity != 0.0 || s.acceleration == 0.0 && s.velocity == 0.0 {
+            e.nontrivial += 1;
+        }
+        if format!("{:?}", c) != format!("{:?}", want) {
+            e.violation("command:from-state", 1, || format!("Command::from({:?}) = {:?}, lowest non-zero derivative is {:?}", s, c, want));
+        }
+        // accessors
+        let (gp, gv, ga) = (s.get_position(), s.get_velocity(), s.get_acceleration());
+        let okv = feq(gp.value, s.position) && feq(gv.value, s.velocity) && feq(ga.value, s.acceleration);
+        let oku = !checked || (unit_exps(gp.unit) == (1, 0) && unit_exps(gv.unit) == (1, -1) && unit_exps(ga.unit) == (1, -2));
+        let gvs = [s.get_value(PositionDerivative::Position), s.get_value(PositionDerivative::Velocity), s.get_value(PositionDerivative::Acceleration)];
+        let okg = feq(gvs[0].value, s.position) && feq(gvs[1].value, s.velocity) && feq(gvs[2].value, s.acceleration) && (!checked || (unit_exps(gvs[0].unit) == (1, 0) && unit_exps(gvs[1].unit) == (1, -1) && unit_exps(gvs[2].unit) == (1, -2)));
+        let rebuilt = guard(|| State::new(gp, gv, ga));
+        if !okv || !oku || !okg || rebuilt.as_ref().map(|r| bits(r) == bits(s)).unwrap_or(false) == false {
+            e.violation("state:accessors", 1, || format!("{:?}: accessors {:?} {:?} {:?} / get_value {:?} / State::new round trip {:?}", s, gp, gv, ga, gvs, rebuilt));
+        }
+        e.outcome(h64(&(bits(s), format!("{:?}", c))));
+    }
+    // State::new rejects wrongly dimensioned arguments (checked builds)
+    for m in -3..=3i8 {
+        for sx in -3..=3i8 {
+            for slot in 0..3 {
+                e.executions += 1;
+                e.checks += 1;
+                let u = Unit::new(m, sx);
+                let mut args = [Quantity::new(1.0, MILLIMETER), Quantity::new(2.0, MILLIMETER_PER_SECOND), Quantity::new(3.0, MILLIMETER_PER_SECOND_SQUARED)];
+                args[slot] = Quantity::new(9.0, u);
+                let right = !checked || (m as i32, sx as i32) == [(1, 0), (1, -1), (1, -2)][slot];
+                let r = guard(|| State::new(args[0], args[1], args[2]));
+                if r.is_ok() != right {
+                    e.violation("state:new-dimension-check", 1, || format!("State::new with argument {} of unit exponents ({},{}): {:?}", slot, m, sx, r));
+                }
+            }
+        }
+    }
+    // Command accessors and round trips
+    for (k, pd) in [PositionDerivative::Position, PositionDerivative::Velocity, PositionDerivative::Acceleration].into_iter().enumerate() {
+        for &x in &[0.0f32, -0.0, 1.0, -2.5, 1e-40, f32::MAX, f32::MIN_POSITIVE, 1024.0] {
+            e.executions += 1;
+            e.states += 1;
+            e.checks += 1;
+            e.nontrivial += 1;
+            let c = Command::new(pd, x);
+            let kind_ok = PositionDerivative::from(c) == pd;
+            let raw_ok = feq(f32::from(c), x);
+            let qc = Quantity::from(c);
+            let q_ok = feq(qc.value, x) && (!checked || unit_exps(qc.unit) == [(1, 0), (1, -1), (1, -2)][k]);
+            let gp = c.get_position().map(|q| (q.value.to_bits(), unit_exps(q.unit)));
+            let gv = c.get_velocity().map(|q| (q.value.to_bits(), unit_exps(q.unit)));
+            let ga = (c.get_acceleration().value.to_bits(), unit_exps(c.get_acceleration().unit));
+            let ue = |m: i32, s: i32| if checked { (m, s) } else { (0, 0) };
+            let (wp, wv, wa) = match k {
+                0 => (Some((x.to_bits(), ue(1, 0))), Some((0.0f32.to_bits(), ue(1, -1))), (0.0f32.to_bits(), ue(1, -2))),
+                1 => (None, Some((x.to_bits(), ue(1, -1))), (0.0f32.to_bits(), ue(1, -2))),
+                _ => (None, None, (x.to_bits(), ue(1, -2))),
+            };
+            let round = format!("{:?}", Command::new(PositionDerivative::from(c), f32::from(c))) == format!("{:?}", c);
+            #[cfg(feature = "dimcheck")]
+            let tq = Command::try_from(qc).map(|c2| format!("{:?}", c2) == format!("{:?}", c)).unwrap_or(false);
+            #[cfg(not(feature = "dimcheck"))]
+            let tq = true;
+            if !(kind_ok && raw_ok && q_ok && gp == wp && gv == wv && ga == wa && round && tq) {
+                e.violation("command:accessors", 1, || format!("{:?}: kind ok {} raw ok {} quantity {:?} get_position {:?} get_velocity {:?} get_acceleration {:?} round trip {} try_from {}", c, kind_ok, raw_ok, qc, gp, gv, ga, round, tq));
+            }
+        }
+    }
+}
+
+fn arithmetic(e: &mut Eng) {
+    let ss = [State::new_raw(1.0, -2.0, 0.5), State::new_raw(-0.0, 1024.0, 1e-40), State::new_raw(0.1, -7.3, 1e3), State::new_raw(f32::MAX, 3.0, -1.0)];
+    let fs = [2.0f32, -0.5, 0.0, 3.3];
+    for a in &ss {
+        for b in &ss {
+            e.executions += 1;
+            e.states += 1;
+            e.checks += 1;
+            e.nontrivial += 1;
+            let sum = *a + *b;
+            let dif = *a - *b;
+            let mut s2 = *a;
+            s2 += *b;
+            let mut d2 = *a;
+            d2 -= *b;
+            let ok = feq(sum.position, a.position + b.position)
+                && feq(sum.velocity, a.velocity + b.velocity)
+                && feq(sum.acceleration, a.acceleration + b.acceleration)
+                && feq(dif.position, a.position - b.position)
+                && feq(dif.velocity, a.velocity - b.velocity)
+                && feq(dif.acceleration, a.acceleration - b.acceleration)
+                && bits(&s2) == bits(&sum)
+                && bits(&d2) == bits(&dif);
+            if !ok {
+                e.violation("state:arithmetic", 1, || format!("{:?} +/- {:?} = {:?} / {:?}", a, b, sum, dif));
+            }
+        }
+        for &f in &fs {
+            e.executions += 1;
+            e.checks += 1;
+            let m = *a * f;
+            let d = *a / f;
+            let n = -*a;
+            let mut m2 = *a;
+            m2 *= f;
+            let mut d2 = *a;
+            d2 /= f;
+            let ok = feq(m.position, a.position * f) && feq(m.velocity, a.velocity * f) && feq(m.acceleration, a.acceleration * f) && feq(d.position, a.position / f) && feq(d.velocity, a.velocity / f) && feq(d.acceleration, a.acceleration / f) && feq(n.position, -a.position) && feq(n.velocity, -a.velocity) && feq(n.acceleration, -a.acceleration) && feq(m2.position, m.position) && feq(m2.velocity, m.velocity) && feq(m2.acceleration, m.acceleration) && feq(d2.position, d.position) && feq(d2.velocity, d.velocity) && feq(d2.acceleration, d.acceleration);
+            if !ok {
+                e.violation("state:arithmetic", 1, || format!("{:?} scaled by {}: {:?} {:?} {:?}", a, f, m, d, n));
+            }
+        }
+    }
+    let pds = [PositionDerivative::Position, PositionDerivative::Velocity, PositionDerivative::Acceleration];
+    for (i, &pa) in pds.iter().enumerate() {
+        for (j, &pb) in pds.iter().enumerate() {
+            for &(x, y) in &[(3.0f32, -1.5f32), (0.1, 7e6), (-0.0, 0.0)] {
+                let (a, b) = (Command::new(pa, x), Command::new(pb, y));
+                type F = fn(Command, Command) -> Command;
+                let forms: [(&str, F, fn(f32, f32) -> f32); 4] = [
+                    ("+", |a, b| a + b, |x, y| x + y),
+                    ("-", |a, b| a - b, |x, y| x - y),
+                    ("+=", |mut a, b| { a += b; a }, |x, y| x + y),
+                    ("-=", |mut a, b| { a -= b; a }, |x, y| x - y),
+                ];
+                for (name, f, raw) in forms {
+                    e.executions += 1;
+                    e.states += 1;
+                    e.checks += 1;
+                    if i != j {
+                        e.nontrivial += 1;
+                    }
+                    let r = guard(|| f(a, b));
+                    match (r, i == j) {
+                        (Ok(c), true) => {
+                            if PositionDerivative::from(c) != pa || !feq(f32::from(c), raw(x, y)) {
+                                e.violation(&format!("command:arithmetic:{}", name), 1, || format!("{:?} {} {:?} = {:?}", a, name, b, c));
+                            }
+                        }
+                        (Err(_), false) => {}
+                        (Ok(c), false) => e.violation(&format!("command:arithmetic:{}:kinds-differ-no-panic", name), 1, || format!("{:?} {} {:?} returned {:?} instead of panicking", a, name, b, c)),
+                        (Err(m), true) => e.violation(&format!("command:arithmetic:{}:panic", name), 1, || format!("{:?} {} {:?} panicked: {}", a, name, b, m)),
+                    }
+                }
+            }
+        }
+        for &f in &fs {
+            let a = Command::new(pa, 6.5);
+            e.executions += 1;
+            e.checks += 1;
+            let m = a * f;
+            let d = a / f;
+            let n = -a;
+            let mut m2 = a;
+            m2 *= f;
+            let mut d2 = a;
+            d2 /= f;
+            let ok = [m, d, n, m2, d2].iter().all(|c| PositionDerivative::from(*c) == pa) && feq(f32::from(m), 6.5 * f) && feq(f32::from(d), 6.5 / f) && feq(f32::from(n), -6.5) && feq(f32::from(m2), 6.5 * f) && feq(f32::from(d2), 6.5 / f);
+            if !ok {
+                e.violation("command:arithmetic:scale", 1, || format!("{:?} scaled by {}: {:?} {:?} {:?} {:?} {:?}", a, f, m, d, n, m2, d2));
+            }
+        }
+    }
+}
+
 pub fn run(_ctx: &Ctx) -> Vec<Eng> {
-    vec![]
+    let exact = states(&COMP);
+    let broad = states(&BROAD);
+    let mut e1 = Eng::new(
+        "c14-kinematics",
+        "State::update on all 6^3 states over {0,-0,1,-2,0.5,1024} and 4^3 over {0.1,-7.3,1e3,-3.3e-3} x dt in {-1e5 s,-2 s,-0.5 s,0,1 ns,0.5 s,2 s,1e5 s}: v' = v + a dt, p' = p + v dt + a dt^2/2 (f64 reference: bit-exact where every evaluation order is exact, else 8x forward-error bound), acceleration bits unchanged, dt = 0 the identity; non-trivial = dt != 0 and a != 0",
+        "280 states x 8 intervals",
+    );
+    kinematics(&mut e1, &exact, "exact-alphabet");
+    kinematics(&mut e1, &broad, "broad-alphabet");
+    e1.sample(|| "State(1,-2,0.5).update(-0.5 s) -> v' = -2.25, p' = 2.0625".to_string());
+    let mut e2 = Eng::new(
+        "c14-setters",
+        "the three Quantity setters x all 49 grid units x a spread of states: Ok and higher derivatives zeroed iff the unit is the right one, otherwise Err and the state bit-identical; raw setters; non-trivial = wrongly dimensioned argument",
+        "44 states x 49 units x 3 setters",
+    );
+    setters(&mut e2, &exact);
+    e2.sample(|| "State(0,1,-2).set_constant_velocity(7.5 mm) -> Err, state untouched".to_string());
+    let mut e3 = Eng::new(
+        "c14-conversions",
+        "Command::from(State) on all 216+64 states (lowest non-zero derivative, -0 counts as zero); State accessors, get_value, State::new round trip and its dimension check over 49 units x 3 slots; Command kind/raw/Quantity/per-derivative accessors and round trips over 3 kinds x 8 values incl. +-0, MAX, subnormal; non-trivial = conversion that must look past a zero derivative",
+        "",
+    );
+    conversions(&mut e3, &exact);
+    conversions(&mut e3, &broad);
+    e3.sample(|| "Command::from(State(3,-0,0)) = Position(3)".to_string());
+    let mut e4 = Eng::new(
+        "c14-arithmetic",
+        "State +,-,+=,-= (16 pairs) and *,/,*=,/=,neg by 4 scalars: component-wise raw f32 operators; Command +,-,+=,-= on all 9 kind pairs x 3 value pairs: same kind => value operator, different kinds => panic; Command *,/,neg and assign forms keep the kind; non-trivial = mixed-kind command pair",
+        "",
+    );
+    arithmetic(&mut e4);
+    e4.sample(|| "Command::Position(3) - Command::Velocity(-1.5) must panic".to_string());
+    vec![e1, e2, e3, e4]
 }
